@@ -1,6 +1,6 @@
 (** Property C17 — the published interface agrees with the IR it ships. *)
 From stdpp Require Import sorting.
-From Tx3 Require Import Base Tir Reduce Surface Lower Analyze Front_proofs Lower_names.
+From Tx3 Require Import Base Tir Reduce Surface Lower Analyze Front_proofs Lower_names Analyze_names.
 
 (** when the analyzer's duplicate check passes, distinct declared argument names (environment
     values, parties, parameters) never share a key of the argument map *)
@@ -26,7 +26,15 @@ Theorem C17_required_keys_are_declared : forall p t ir, lower_tx p t = Ok ir ->
   forall k, k ∈ map fst (tx_params ir) -> exists n, n ∈ declared p t /\ k = to_lower n.
 Proof. exact lowered_params_are_declared. Qed.
 
+(** the interface entry of a name and the IR that the name lowers to come from one definition:
+    in an accepted program, lowering by the name of any definition gives the IR of that very
+    definition (finding F17-2, repaired: two transactions of one name were accepted) *)
+Theorem C17_lower_by_name_unambiguous : forall p t,
+  analyze_ok p = true -> t ∈ sp_txs p -> lower p (st_name t) = lower_tx p t.
+Proof. exact lower_by_name_unambiguous. Qed.
+
 Print Assumptions C17_required_keys_are_declared.
 Print Assumptions C17_argument_keys_do_not_collide.
 Print Assumptions C17_lowercase_idempotent.
 Print Assumptions C17_reported_params_sorted.
+Print Assumptions C17_lower_by_name_unambiguous.
